@@ -797,4 +797,79 @@ def libVarRows : List (String × String × List String) := [
   ("modules/exec.allowedKeys", "map[string]bool", [])
 ]
 
+/-! ## 7. One importer, several evaluations, contexts that end during a first load
+
+`LocalImporter` / `FSImporter` keep ONE piece of state between `Import` calls: the compiled code of
+the modules loaded so far (`codeCache`, under the importer's mutex).  An import statement of
+evaluation `e` for module `m` reaches `Importer.Import` (`IEv`); `live = false` says that `e`'s own
+context ends between that call and the end of the parser's run over the module (the parser polls
+`ctx.Done()` before every top-level statement).  A first load searches the source directory
+(`fs m`: 0 = no such file, 1 = a file that does not compile, `v + 2` = a module exporting `v`),
+parses and compiles under the CALLER's context; the outcome (`0` not found, `1` compile error,
+`2` the caller's context ended, `v + 3` the module) belongs to that call.  `codeOnly` = the code as
+it is (only compiled code is kept); `negative` = the contrast (a failure is kept as well, whatever
+its cause). -/
+
+inductive ImpPolicy where
+  | codeOnly
+  | negative
+  deriving DecidableEq, Repr
+
+structure IEv where
+  e : Nat
+  m : Nat
+  live : Bool
+  deriving DecidableEq, Repr
+
+structure IState where
+  code : List (Nat × Nat)
+  errs : List (Nat × Nat)
+  log : Nat → List (IEv × Nat)
+
+def IState.empty : IState := { code := [], errs := [], log := fun _ => [] }
+
+def ilook : List (Nat × Nat) → Nat → Option Nat
+  | [], _ => none
+  | (k, v) :: c, m => if m = k then some v else ilook c m
+
+/-- a first load of `m` by a caller whose context is (not) live until the parser is done -/
+def loadRes (fs : Nat → Nat) (m : Nat) (live : Bool) : Nat :=
+  match fs m with
+  | 0 => 0
+  | k + 1 => if live = false then 2 else if k = 0 then 1 else k + 2
+
+def ilog (s : IState) (ev : IEv) (r : Nat) : IState :=
+  { s with log := fun t => if t = ev.e then s.log t ++ [(ev, r)] else s.log t }
+
+def istep (p : ImpPolicy) (fs : Nat → Nat) (s : IState) (ev : IEv) : IState :=
+  match ilook s.code ev.m with
+  | some v => ilog s ev (v + 3)
+  | none =>
+    match (if p = .negative then ilook s.errs ev.m else none) with
+    | some r => ilog s ev r
+    | none =>
+      let r := loadRes fs ev.m ev.live
+      if 3 ≤ r then ilog { s with code := (ev.m, r - 3) :: s.code } ev r
+      else if p = .negative then ilog { s with errs := (ev.m, r) :: s.errs } ev r
+      else ilog s ev r
+
+def irun (p : ImpPolicy) (fs : Nat → Nat) (s : IState) : List IEv → IState
+  | [] => s
+  | ev :: rest => irun p fs (istep p fs s ev) rest
+
+/-- what evaluation `e`'s import statements get, import after import -/
+def importsSeen (p : ImpPolicy) (fs : Nat → Nat) (evs : List IEv) (e : Nat) : List Nat :=
+  ((irun p fs IState.empty evs).log e).map (·.2)
+
+/-- … when `e` is the only evaluation that uses the importer -/
+def importsSeenAlone (p : ImpPolicy) (fs : Nat → Nat) (evs : List IEv) (e : Nat) : List Nat :=
+  importsSeen p fs (evs.filter fun ev => ev.e == e) e
+
+/-- Spec: what the property demands of ONE import: under a context that stays live it gets what a
+    first load under that context gets (the module, or the module's own, permanent failure),
+    whatever other evaluations did to the importer before; only an import whose OWN context ended
+    may report that (and may as well get a module somebody else finished loading). -/
+def ImpOK (fs : Nat → Nat) (ev : IEv) (r : Nat) : Prop :=
+  r = loadRes fs ev.m true ∨ (ev.live = false ∧ r = loadRes fs ev.m false)
+
 end Risor.C09
